@@ -109,6 +109,24 @@ def check_search(ctx, case):
         if view(again) != view(m):
             ctx.fail("the same DNARegex object answers {} for a target it answered {} for before it was used on "
                      "other targets".format(view(again), view(m)), case)
+    # one target object searched as linear, as circular, and as linear again (any DNARegex objects in between)
+    if n >= 2 and kind != "circrec":
+        tgt = impl.search_target(wd, kind)
+
+        def refspan(circular):
+            d2 = wd * 2 if circular else wd
+            for i2 in range(0, n):
+                mm = ref.match(d2, i2, i2 + n)
+                if mm is not None:
+                    return [mm.span(i3) for i3 in range(ref.groups + 1)]
+            return None
+        for lin in (True, False, True, False):
+            mm = DNARegex(pat).search(tgt, linear=lin)
+            got_sp = None if mm is None else [mm.span(i3) for i3 in range(rx.regex.groups + 1)]
+            if got_sp != refspan(not lin):
+                ctx.fail("the same target object searched with linear={} (after having been searched with the other "
+                         "topology) gives {} instead of {}".format(lin, got_sp, refspan(not lin)), case)
+                break
     ctx.note("match" if m is not None else "nomatch")
     if m is not None and m.end() > n:
         ctx.note("match-crosses-origin")
@@ -117,6 +135,68 @@ def check_search(ctx, case):
     # every fit, not only the reported one (ties the model's enumeration `allFits` to `re`)
     if n <= 10 and pat.count("*") <= 2 and ctx.evaluations % 5 == 0:
         ctx.op(("FITS", pat, wd), case)
+
+
+def check_extended(ctx, case):
+    """patterns using the rest of the regular-expression syntax (`?`, `+`, `{m,n}`), which the transcription hands
+    through untouched: outside the Lean model (oracle only) — every IUPAC letter still stands for its set"""
+    pat, wd, linear = case["xpat"], case["word"], case["linear"]
+    n = len(wd)
+    table = dict(gen.IUPAC)
+    table["N"] = "ACGTN"
+    refrx = re.compile("(?i)" + "".join("[" + table[c] + "]" if c in table else c for c in pat))
+    d2 = wd if linear else wd * 2
+    want = None
+    for i in range(n):
+        mm = refrx.match(d2, i, i + n)
+        if mm is not None:
+            want = [mm.span(j) for j in range(refrx.groups + 1)]
+            break
+    try:
+        m = DNARegex(pat).search(impl.Seq(wd), linear=linear)
+    except re.error as e:
+        ctx.fail("DNARegex({!r}) cannot be compiled: {}".format(pat, e), case)
+        return
+    got = None if m is None else [m.span(j) for j in range(refrx.groups + 1)]
+    if got != want:
+        ctx.fail("DNARegex({!r}).search({!r}, linear={}) gives {} but letter-by-letter transcription gives {}".format(
+            pat, wd, linear, got, want), case)
+    ctx.note("extended-syntax")
+    ctx.case(case, nontrivial=want is not None, key=["x", pat, wd, linear])
+
+
+def gen_extended(rng):
+    items = []
+    for _ in range(rng.randint(2, 6)):
+        c = rng.choice("ACGTNNNRYSW")
+        r = rng.random()
+        if r < 0.25:
+            c = c * rng.randint(1, 3) + "?"                       # AA?  NN?  W?
+        elif r < 0.4:
+            c = c + "+"
+        elif r < 0.55:
+            c = c + "{%d,%d}" % (rng.randint(0, 1), rng.randint(1, 3))
+        elif r < 0.65:
+            c = "(" + c * rng.randint(1, 2) + ")"
+        items.append(c)
+    pat = "".join(items)
+    table = dict(gen.IUPAC)
+    # a target that contains an instance with optional letters sometimes absent
+    inst = []
+    for it in items:
+        core_ = it.strip("()")
+        letters = [ch for ch in core_ if ch.isalpha()]
+        if core_.endswith("?"):
+            letters = letters[:-1] if rng.random() < 0.6 else letters
+        elif core_.endswith("+"):
+            letters = letters * rng.randint(1, 3)
+        elif "{" in core_:
+            letters = [core_[0]] * rng.randint(int(core_[2]), int(core_[4]))
+        inst += [rng.choice(table[ch]) if ch != "N" else rng.choice("ACGT") for ch in letters]
+    wd = "".join(inst) + gen.rnd(rng, rng.randint(0, 5))
+    if not wd:
+        wd = "A"
+    return {"xpat": pat, "word": gen.rot(wd, rng.randrange(len(wd))), "linear": rng.random() < 0.5}
 
 
 def gen_search(rng):
@@ -144,6 +224,8 @@ def run(ctx):
     check_lm(ctx)
     for _ in range(ctx.budget(3000, 120000)):
         ctx.guard(check_search, gen_search(ctx.rng))
+    for _ in range(ctx.budget(400, 20000)):
+        ctx.guard(check_extended, gen_extended(ctx.rng))
     if ctx.tier == "thorough" and ctx.scale == 1:
         pats = ["A", "AC", "A(N)C", "(A)N*C", "(A)N*?C", "N*A", "(N*)(A)", "A*C*?", "(AN)(N*)G", "R(Y*)A"]
         for L in range(1, 7):
@@ -157,6 +239,8 @@ def run(ctx):
 
 
 def check_case(ctx, case):
+    if "xpat" in case:
+        return ctx.guard(check_extended, case)
     if "pat" in case:
         ctx.guard(check_search, case)
     else:
